@@ -1,6 +1,7 @@
 package main
 
 import (
+	"encoding/json"
 	"flag"
 	"fmt"
 	"os"
@@ -58,6 +59,8 @@ func main() {
 	tier := flag.String("tier", "", "quick or thorough (default: $VERIF_TIER or quick)")
 	dump := flag.String("dump", "", "debug: dump a model (set, get, readers, ...)")
 	noEvidence := flag.Bool("no-evidence", false, "do not write evidence (used by the variants harness)")
+	noControls := flag.Bool("no-controls", false, "skip the positive controls (used by the variants harness)")
+	replay := flag.String("replay", "", "re-run only the rule instance recorded in a violation file and print its derivation")
 	flag.Parse()
 	if *tier == "" {
 		*tier = os.Getenv("VERIF_TIER")
@@ -83,7 +86,58 @@ func main() {
 		fmt.Fprintf(os.Stderr, "unknown property %q\n", *prop)
 		os.Exit(2)
 	}
+	if *replay != "" {
+		os.Exit(runReplay(*prop, def, *repo, *replay))
+	}
+	skipControls = *noControls
 	os.Exit(runProperty(*prop, def, *repo, *verif, *tier, seed, *noEvidence))
+}
+
+var skipControls bool
+
+// runReplay re-derives the obligations whose key matches the recorded violation.
+func runReplay(id string, def propDef, repo, path string) int {
+	b, err := os.ReadFile(path)
+	if err != nil {
+		fmt.Fprintln(os.Stderr, "replay:", err)
+		return 2
+	}
+	var rec struct {
+		Key, Rule, Instance string
+	}
+	if err := json.Unmarshal(b, &rec); err != nil {
+		fmt.Fprintln(os.Stderr, "replay:", err)
+		return 2
+	}
+	w, err := load(repo, "")
+	if err != nil {
+		fmt.Println("load:", err)
+		return 1
+	}
+	var all []Obligation
+	for _, g := range def.Groups {
+		groups[g](w, &all)
+	}
+	found, bad := 0, 0
+	for _, o := range all {
+		if o.Rule == rec.Rule && (o.Instance == rec.Instance || strings.HasPrefix(rec.Instance, o.Instance+"#")) {
+			found++
+			fmt.Printf("%s: [%s] %s — ok=%v — %s\n", o.Pos, o.Rule, o.Instance, o.OK, o.Detail)
+			if !o.OK {
+				bad++
+			}
+		}
+	}
+	if found == 0 {
+		fmt.Printf("rule instance %s no longer exists on this tree\n", rec.Key)
+		return 1
+	}
+	if bad > 0 {
+		fmt.Printf("VIOLATION property=%s replay=%s\n", id, path)
+		return 1
+	}
+	fmt.Println("the recorded rule instance holds on this tree")
+	return 0
 }
 
 func runProperty(id string, def propDef, repo, verif, tier string, seed int64, noEvidence bool) (code int) {
@@ -131,6 +185,9 @@ func runProperty(id string, def propDef, repo, verif, tier string, seed int64, n
 		sort.Strings(fr)
 		for _, r := range fr {
 			run.floor(r, def.Floors[r])
+		}
+		if !skipControls {
+			runControls(def, repo, run)
 		}
 		if tier == "thorough" {
 			w.thorough(id, def, run)
